@@ -2,7 +2,11 @@
 
 use crate::sched::Sim;
 
+pub mod breq;
 pub mod c08;
+pub mod client;
+pub mod hostile;
+pub mod props_w;
 pub mod fe;
 pub mod selftest;
 pub mod server;
@@ -61,6 +65,9 @@ pub struct PropDef {
     pub panic_prop: &'static str,
 }
 
+/// Set by the daemon family once it exists: the live-daemon half of C05.
+pub static DAEMON_C05: std::sync::OnceLock<fn(&Sim, &RunCfg) -> RunOut> = std::sync::OnceLock::new();
+
 pub fn no_sweep(_: Tier) -> u64 {
     0
 }
@@ -101,6 +108,11 @@ pub fn all() -> Vec<PropDef> {
     v.push(c08::def());
     v.push(fe::def_c02());
     v.push(fe::def_c03());
+    v.push(breq::def_c18());
+    v.push(props_w::def_c01());
+    v.push(props_w::def_c05());
+    v.push(props_w::def_c06());
+    v.push(props_w::def_c09());
     v
 }
 
